@@ -352,7 +352,7 @@ def tags_part(dyn):
         if by_iter != by_index:
             raise AssertionError('iter_tags disagrees with get_tag')
         return by_iter
-    return {'tags': run_impl(tags), 'num_tags': run_impl(dyn.num_tags)}
+    return {'tags': run_impl(tags), 'num_tags': run_impl(lambda: dyn.num_tags())}
 
 
 def relocs_obs(dyn):
@@ -386,7 +386,7 @@ def impl_observe(data, names, tagq):
         for idx, s in enumerate(f.iter_segments()):
             if isinstance(s, DynamicSegment):
                 d = tags_part(s)
-                d['num_symbols'] = run_impl(s.num_symbols)
+                d['num_symbols'] = run_impl(lambda: s.num_symbols())
                 # an abandoned partial walk on the same object first (callers break out of iter_symbols()); the
                 # number of items taken is derived from the content so that the case replays identically
                 try:
